@@ -46,6 +46,7 @@ type Step struct {
 	SW     *bool       `json:"sW"`
 	SStop  *bool       `json:"sStop"`
 	Zero   int         `json:"zero"` // bad frame: index of the zero pixel
+	FFC    bool        `json:"ffc"`  // the frame's telemetry says a flat-field correction happened 3 s ago
 }
 
 func b(p *bool) bool { return p == nil || *p }
@@ -299,7 +300,11 @@ func runScript(out *vh.Out, sc Script, idx int) {
 				}
 				accepted++
 				id := accepted
-				raw := vh.RawLepton(cam, uint32(60000+accepted*1000), 0, func(y, x int) uint16 {
+				lastFFC := uint32(0)
+				if st.FFC {
+					lastFFC = uint32(60000+accepted*1000) - 3000
+				}
+				raw := vh.RawLepton(cam, uint32(60000+accepted*1000), lastFFC, func(y, x int) uint16 {
 					if y == 0 && x == 0 {
 						return uint16(id)
 					}
